@@ -150,7 +150,8 @@ Record Inv0 (s : st) : Prop := {
   I_all : forall a c, cell_at s a = Some c -> ~ In a (det s) -> ~ In a (gone s) -> In (k_id c, a) (reg s);
   I_det : forall i a, In (i, a) (reg s) -> ~ In a (det s) /\ ~ In a (gone s);
   I_bound : forall a, In a (det s) \/ In a (gone s) -> a < length (heap s);
-  I_heap : forall a c, cell_at s a = Some c -> forall k, In k (all_kids c) -> k < a
+  I_heap : forall a c, cell_at s a = Some c -> forall k, In k (all_kids c) -> k < a;
+  I_roots : forall r, In r (roots s) -> r < length (heap s)      (* a variable holds an existing node *)
 }.
 (* after a step: additionally every entry of the weak registry is reachable from the variables *)
 Definition RInv (s : st) : Prop := Inv0 s /\ forall i a, In (i, a) (reg s) -> reachable s a = true.
@@ -158,20 +159,51 @@ Definition RInv (s : st) : Prop := Inv0 s /\ forall i a, In (i, a) (reg s) -> re
 Lemma cell_at_lt s a c : cell_at s a = Some c -> a < length (heap s).
 Proof. unfold cell_at. intro E. apply nth_error_Some. congruence. Qed.
 
+Lemma roots_init n : roots (init_st n) = [].
+Proof. unfold roots; simpl. induction n; simpl; auto. Qed.
 Lemma inv_init n : RInv (init_st n).
 Proof.
   split; [constructor; simpl; try tauto; try constructor|simpl; tauto].
   - intros a c E. unfold cell_at in E; simpl in E. destruct a; discriminate.
   - intros a c E. unfold cell_at in E; simpl in E. destruct a; discriminate.
+  - intros r. rewrite roots_init. intros [].
+Qed.
+
+Lemma roots_set_nth v (x : option nat) (l : list (option nat)) (r : nat) :
+  In r (flat_map (fun v => match v with Some a => [a] | None => [] end) (set_nth v x l)) ->
+  In r (flat_map (fun v => match v with Some a => [a] | None => [] end) l) \/ x = Some r.
+Proof.
+  revert v. induction l as [|y l IH]; intros v; [destruct v; simpl; tauto|].
+  destruct v as [|v]; simpl.
+  - rewrite !in_app_iff. intros [Hx|Hr]; auto. destruct x as [a|]; simpl in Hx; [|tauto].
+    destruct Hx as [->|[]]. auto.
+  - rewrite !in_app_iff. intros [Hy|Hr]; auto. destruct (IH _ Hr); auto.
 Qed.
 
 (* ----- collection ----- *)
 Lemma gc_reach s : reachable_set (gc s) = reachable_set s.
 Proof. reflexivity. Qed.
 
-Lemma gc_inv s : Inv0 s -> RInv (gc s).
+(* what holds between a raw step and the collection that ends it: as Inv0, except that a node nobody references any
+   more may be neither registered nor marked (the half-built node of a replace() whose constructor raised late: the
+   except-branch has put the original back under the id, possibly over the half-built node's entry, while the
+   traceback still holds that node) *)
+Record Inv1 (s : st) : Prop := {
+  J_fun : NoDup (keys (reg s));
+  J_ok : forall i a, In (i, a) (reg s) -> exists c, cell_at s a = Some c /\ k_id c = i;
+  J_all : forall a c, cell_at s a = Some c -> ~ In a (det s) -> ~ In a (gone s) -> reachable s a = true ->
+                      In (k_id c, a) (reg s);
+  J_det : forall i a, In (i, a) (reg s) -> ~ In a (det s) /\ ~ In a (gone s);
+  J_bound : forall a, In a (det s) \/ In a (gone s) -> a < length (heap s);
+  J_heap : forall a c, cell_at s a = Some c -> forall k, In k (all_kids c) -> k < a;
+  J_roots : forall r, In r (roots s) -> r < length (heap s)
+}.
+Lemma inv0_inv1 s : Inv0 s -> Inv1 s.
+Proof. intros [Hf Hok Hall Hdet Hb Hh Hr]. constructor; auto. Qed.
+
+Lemma gc_inv1 s : Inv1 s -> RInv (gc s).
 Proof.
-  intros [Hf Hok Hall Hdet Hb Hh]. split; [constructor|]; simpl.
+  intros [Hf Hok Hall Hdet Hb Hh Hro]. split; [constructor|]; simpl.
   - now apply filter_keys_nodup.
   - intros i a Hin. apply filter_In in Hin as [Hin _]. now apply Hok.
   - intros a c Hc Hnd Hng. apply filter_In.
@@ -186,11 +218,17 @@ Proof.
     apply memb_in in Hg'. auto.
   - intros a [Hd|Hg]; [apply Hb; auto|]. apply filter_In in Hg as [Hs _]. apply in_seq in Hs. lia.
   - exact Hh.
+  - exact Hro.
   - intros i a Hin. apply filter_In in Hin as [_ Hm]. exact Hm.
 Qed.
+Lemma gc_inv s : Inv0 s -> RInv (gc s).
+Proof. intro Hs. apply gc_inv1. now apply inv0_inv1. Qed.
 
-Lemma set_var_inv s v x : Inv0 s -> Inv0 (set_var s v x).
-Proof. intros [Hf Hok Hall Hdet Hb Hh]. constructor; simpl; auto. Qed.
+Lemma set_var_inv s v x : Inv0 s -> (forall a, x = Some a -> a < length (heap s)) -> Inv0 (set_var s v x).
+Proof.
+  intros [Hf Hok Hall Hdet Hb Hh Hr] Hx. constructor; simpl; auto.
+  intros r Hin. unfold roots in Hin; simpl in Hin. apply roots_set_nth in Hin as [Hin|E]; auto.
+Qed.
 
 (* ----- construction ----- *)
 Section Inv.
@@ -223,7 +261,7 @@ Section Inv.
   Lemma alloc_inv s c o ps ks s' a : Inv0 s -> kids_below (length (heap s)) ks ->
     alloc H ct s c o ps ks = Some (s', a) -> Inv0 s'.
   Proof.
-    intros [Hf Hok Hall Hdet Hb Hh] Hk Ea. apply alloc_shape in Ea as [i [Hi [-> [_ ->]]]].
+    intros [Hf Hok Hall Hdet Hb Hh Hro] Hk Ea. apply alloc_shape in Ea as [i [Hi [-> [_ ->]]]].
     constructor; simpl.
     - constructor; auto. now apply lookup_none.
     - intros j x [E|Hin].
@@ -248,12 +286,13 @@ Section Inv.
         destruct (x - length (heap s)) eqn:Ed; simpl in Hc.
         * injection Hc as <-. unfold all_kids in Hin; simpl in Hin. apply Hk in Hin. lia.
         * destruct n; discriminate.
+    - intros r Hr. rewrite app_length; simpl. specialize (Hro _ Hr). lia.
   Qed.
 
   (* ----- detach_self (after the repair) ----- *)
   Lemma detach_self_inv s a : Inv0 s -> Inv0 (fst (detach_self true s a)).
   Proof.
-    intros [Hf Hok Hall Hdet Hb Hh]. unfold detach_self.
+    intros [Hf Hok Hall Hdet Hb Hh Hro]. unfold detach_self.
     destruct (cell_at s a) as [c|] eqn:Ec; [|constructor; auto].
     assert (Hlt : a < length (heap s)) by (eapply cell_at_lt; eauto).
     assert (Hmark : lookup (k_id c) (reg s) <> Some a -> Inv0 (set_reg s (reg s) (a :: det s))).
@@ -265,7 +304,8 @@ Section Inv.
         destruct (Hok _ _ Hin) as [c' [Hc' Hj]]. rewrite Ec in Hc'. injection Hc' as <-. subst j.
         apply Hne. now apply in_lookup.
       - intros x [[<-|Hd]|Hg]; auto.
-      - exact Hh. }
+      - exact Hh.
+      - exact Hro. }
     destruct (lookup (k_id c) (reg s)) as [b|] eqn:El; simpl.
     - destruct (Nat.eqb_spec a b) as [->|Hne]; simpl.
       + constructor; simpl.
@@ -278,6 +318,7 @@ Section Inv.
           intros [<-|Hd']; auto. destruct (Hok _ _ Hin) as [c' [Hc' Hj']]. rewrite Ec in Hc'. injection Hc' as <-. auto.
         * intros x [[<-|Hd]|Hg]; auto.
         * exact Hh.
+        * exact Hro.
       + apply Hmark. congruence.
     - apply Hmark. congruence.
   Qed.
@@ -341,9 +382,48 @@ Proof.
   destruct (pystr_eqb_spec k' k); [intros [= ->]; subst; auto|auto].
 Qed.
 
+(* nothing above the roots is reachable (children have smaller addresses) *)
+Lemma pre_le hp : (forall a c, nth_error hp a = Some c -> forall k, In k (all_kids c) -> k < a) ->
+  forall fuel r x, In x (pre hp fuel r) -> x <= r.
+Proof.
+  intro Hwf. induction fuel as [|f IH]; simpl; [tauto|]. intros r x.
+  destruct (nth_error hp r) as [c|] eqn:E; [|simpl; tauto].
+  intros [<-|Hin]; auto. apply in_flat_map in Hin as [k [Hk Hx]].
+  specialize (Hwf _ _ E _ Hk). specialize (IH _ _ Hx). lia.
+Qed.
+Lemma unreachable_above s n x :
+  (forall a c, cell_at s a = Some c -> forall k, In k (all_kids c) -> k < a) ->
+  (forall r, In r (roots s) -> r < n) -> n <= x -> reachable s x = false.
+Proof.
+  intros Hwf Hr Hx. destruct (reachable s x) eqn:E; auto. exfalso.
+  apply memb_in in E. unfold reachable_set in E. apply in_flat_map in E as [r [Hin Hp]].
+  apply (pre_le _ Hwf) in Hp. specialize (Hr _ Hin). lia.
+Qed.
+
 Section Inv2.
   Variable H : pystr -> pystr.
   Variable ct : ctable.
+  Variable late : st -> nat -> bool.
+
+  (* the constructor call = the base __post_init__ (alloc), then the subclass's own validation *)
+  Lemma construct_ok s c o ps ks s' a : construct H ct late s c o ps ks = DOk s' a ->
+    alloc H ct s c o ps ks = Some (s', a) /\ late s' a = false.
+  Proof.
+    unfold construct. destruct (alloc _ _ _ _ _ _ _) as [[s1 a1]|]; [|discriminate].
+    destruct (late s1 a1) eqn:El; [discriminate|]. intros [= <- <-]. auto.
+  Qed.
+  Lemma construct_late s c o ps ks s' : construct H ct late s c o ps ks = DLate s' ->
+    exists a, alloc H ct s c o ps ks = Some (s', a) /\ late s' a = true.
+  Proof.
+    unfold construct. destruct (alloc _ _ _ _ _ _ _) as [[s1 a1]|]; [|discriminate].
+    destruct (late s1 a1) eqn:El; [|discriminate]. intros [= <-]. eauto.
+  Qed.
+  Lemma construct_no_fuel s c o ps ks : construct H ct late s c o ps ks <> DFuel.
+  Proof.
+    unfold construct. destruct (alloc _ _ _ _ _ _ _) as [[s1 a1]|] eqn:Ea.
+    - destruct (late s1 a1); discriminate.
+    - exfalso. revert Ea. apply alloc_some.
+  Qed.
 
   Lemma new_args_below s c ps ks ks' : new_args ct s c ps ks = ROk ks' -> kids_below (length (heap s)) ks'.
   Proof.
@@ -378,27 +458,35 @@ Section Inv2.
     simpl in Hk. apply assoc_in in Ea. eapply Hch; eauto.
   Qed.
 
-  Lemma dc_replace_raised s a ch s' e : dc_replace H ct s a ch = (s', Raised e) -> s' = s.
+  (* a raising dataclasses.replace: either nothing was built (non-init key, unknown key), or the new node was built,
+     given its id and registered, and then rejected by its class's own validation *)
+  Lemma dc_replace_raised s a ch s' e : dc_replace H ct late s a ch = (s', Raised e) ->
+    s' = s \/ exists c a', cell_at s a = Some c /\
+                 alloc H ct s (k_cls c) (new_origin c ch) (new_props c ch) (new_kids c ch) = Some (s', a').
   Proof.
-    unfold dc_replace. destruct (cell_at s a); [|intros [= <-]; auto].
+    unfold dc_replace. destruct (cell_at s a) as [c|]; [|discriminate].
     destruct (dc_check _ _ _); [intros [= <- _]; auto|].
-    destruct (alloc _ _ _ _ _ _ _) as [[s1 a1]|]; intros [= ]; auto.
+    destruct (construct _ _ _ _ _ _ _ _) as [s1 a1|s1|] eqn:Ec; intros [= <- _]; try discriminate.
+    apply construct_late in Ec as [a' [Ea _]]. right. eauto.
   Qed.
 
   Lemma dc_replace_inv s a ch s' r : Inv0 s -> changes_below (length (heap s)) ch ->
-    dc_replace H ct s a ch = (s', r) -> Inv0 s'.
+    dc_replace H ct late s a ch = (s', r) -> Inv0 s' /\ forall a', r = OkNode a' -> a' < length (heap s').
   Proof.
-    intros Hs Hch. unfold dc_replace. destruct (cell_at s a) as [c|] eqn:Ec; [|intros [= <- _]; auto].
-    destruct (dc_check _ _ _); [intros [= <- _]; auto|].
-    destruct (alloc _ _ _ _ _ _ _) as [[s1 a1]|] eqn:Ea; intros [= <- _]; auto.
-    eapply alloc_inv; eauto. eapply new_kids_below; eauto.
+    intros Hs Hch. unfold dc_replace. destruct (cell_at s a) as [c|] eqn:Ec; [|intros [= <- <-]; split; [auto|discriminate]].
+    destruct (dc_check _ _ _); [intros [= <- <-]; split; [auto|discriminate]|].
+    destruct (construct _ _ _ _ _ _ _ _) as [s1 a1|s1|] eqn:Eco; intros [= <- <-].
+    - apply construct_ok in Eco as [Ea _]. split; [eapply alloc_inv; eauto; eapply new_kids_below; eauto|].
+      intros a' [= <-]. apply alloc_shape in Ea as [i [_ [-> [_ ->]]]]. simpl. rewrite app_length; simpl. lia.
+    - apply construct_late in Eco as [a1 [Ea _]]. split; [eapply alloc_inv; eauto; eapply new_kids_below; eauto|discriminate].
+    - split; [auto|discriminate].
   Qed.
 
   (* a registry with the same entries in another order *)
   Lemma inv_reg_equiv s r' : Inv0 s -> NoDup (keys r') -> (forall i a, In (i, a) r' <-> In (i, a) (reg s)) ->
     Inv0 (set_reg s r' (det s)).
   Proof.
-    intros [Hf Hok Hall Hdet Hb Hh] Hnd Heq. constructor; simpl; auto.
+    intros [Hf Hok Hall Hdet Hb Hh Hro] Hnd Heq. constructor; simpl; auto.
     - intros i a Hin. apply Hok. now apply Heq.
     - intros a c Hc Hd Hg. apply Heq. now apply Hall.
     - intros i a Hin. apply Hdet with i. now apply Heq.
@@ -427,42 +515,119 @@ Section Inv2.
     destruct (Nat.eqb_spec a b); [congruence|reflexivity].
   Qed.
 
-  Lemma replace_inv s a ch s' r : Inv0 s -> changes_below (length (heap s)) ch ->
-    replace H ct true s a ch = (s', r) -> Inv0 s'.
+  (* the except-branch of ASTNode.replace: NODE_REGISTRY[ori.id] = ori, whatever sits under that id now.  What sits
+     there can only be the half-built replacement, which nothing references once the exception has left. *)
+  Lemma restore_inv1 s2 a c d : Inv0 s2 -> cell_at s2 a = Some c -> det s2 = a :: d -> ~ In a d -> ~ In a (gone s2) ->
+    (forall x, In (k_id c, x) (reg s2) -> reachable s2 x = false) ->
+    Inv1 (set_reg s2 (dict_set (k_id c) a (reg s2)) d).
   Proof.
-    intros Hs Hch. unfold replace. destruct (cell_at s a) as [c|] eqn:Ec; [|intros [= <- _]; auto].
+    intros [Hf Hok Hall Hdet Hb Hh Hro] Hc Hd Hnd Hng Hun. constructor; simpl.
+    - constructor; [|now apply remove_nodup]. intro Hk. apply remove_keys in Hk as [_ Hk]. congruence.
+    - intros i x [E|Hin]; [injection E as <- <-; eauto|]. apply remove_in in Hin as [Hin _]. now apply Hok.
+    - intros x cx Hx Hxd Hxg Hxr. change (cell_at s2 x = Some cx) in Hx. destruct (Nat.eq_dec x a) as [->|Hne].
+      + rewrite Hc in Hx. injection Hx as <-. auto.
+      + assert (Hin : In (k_id cx, x) (reg s2)).
+        { apply Hall; auto. rewrite Hd. intros [E|Hin]; [congruence|auto]. }
+        right. apply remove_in. split; auto. intro E. rewrite E in Hin.
+        change (reachable s2 x = true) in Hxr. rewrite (Hun _ Hin) in Hxr. discriminate.
+    - intros i x [E|Hin]; [injection E as <- <-; auto|]. apply remove_in in Hin as [Hin _].
+      destruct (Hdet _ _ Hin) as [Hx Hg]. split; auto. intro Hx'. apply Hx. rewrite Hd. now right.
+    - intros x [Hx|Hx]; apply Hb; auto. left. rewrite Hd. now right.
+    - exact Hh.
+    - exact Hro.
+  Qed.
+
+  (* how a raising ASTNode.replace ends *)
+  Lemma replace_raised_cases s a ch s' e : replace H ct late true s a ch = (s', Raised e) ->
+    exists c s2, cell_at s a = Some c /\ dc_replace H ct late (fst (detach_self true s a)) a ch = (s2, Raised e) /\
+      ((lookup (k_id c) (reg s) = Some a /\ s' = set_reg s2 (dict_set (k_id c) a (reg s2)) (det s)) \/
+       (lookup (k_id c) (reg s) <> Some a /\ s' = s2)).
+  Proof.
+    unfold replace. destruct (cell_at s a) as [c|] eqn:Ec; [|discriminate].
+    destruct (dc_replace H ct late (fst (detach_self true s a)) a ch) as [s2 r2] eqn:Ed.
+    destruct r2; try discriminate.
+    destruct (lookup (k_id c) (reg s)) as [b|] eqn:El.
+    - destruct (Nat.eqb_spec a b) as [<-|Hne]; simpl.
+      + rewrite Ec. intros [= <- <-]. exists c, s2. auto.
+      + intros [= <- <-]. exists c, s2. repeat split; auto. right. split; [congruence|auto].
+    - intros [= <- <-]. exists c, s2. repeat split; auto. right. split; [congruence|auto].
+  Qed.
+
+  Lemma replace_ok_is_dc s a ch s' a' : replace H ct late true s a ch = (s', OkNode a') ->
+    dc_replace H ct late (fst (detach_self true s a)) a ch = (s', OkNode a').
+  Proof.
+    unfold replace. destruct (cell_at s a) as [c|] eqn:Ec; [|discriminate].
+    destruct (dc_replace H ct late (fst (detach_self true s a)) a ch) as [s2 r2] eqn:Ed.
+    destruct r2; try discriminate; auto.
+    destruct (match lookup (k_id c) (reg s) with Some b => _ | None => None end); discriminate.
+  Qed.
+
+  Lemma replace_inv s a ch s' r : Inv0 s -> changes_below (length (heap s)) ch ->
+    replace H ct late true s a ch = (s', r) ->
+    Inv1 s' /\ forall a', r = OkNode a' -> Inv0 s' /\ a' < length (heap s').
+  Proof.
+    intros Hs Hch Er.
     pose proof (detach_self_inv s a Hs) as Hs1.
-    destruct (detach_self_frame true s a) as [Hh1 _].
-    destruct (dc_replace H ct (fst (detach_self true s a)) a ch) as [s2 r2] eqn:Ed.
-    assert (Hs2 : Inv0 s2) by (eapply dc_replace_inv; eauto; now rewrite Hh1).
-    destruct r2; try (intros [= <- _]; exact Hs2).
-    apply dc_replace_raised in Ed. subst s2.
-    destruct (lookup (k_id c) (reg s)) as [b|] eqn:El; [|intros [= <- _]; exact Hs2].
-    destruct (Nat.eqb_spec a b) as [<-|Hne]; simpl; [|intros [= <- _]; exact Hs2].
-    rewrite Ec. rewrite (detach_self_registered _ _ _ Ec El). simpl. intros [= <- _].
-    destruct (restore_equiv (k_id c) a (reg s) (I_fun _ Hs) (lookup_in _ _ _ El)) as [Hnd Heq].
-    exact (inv_reg_equiv s _ Hs Hnd Heq).
+    destruct (detach_self_frame true s a) as [Hh1 [Hv1 Hg1]].
+    assert (Hch1 : changes_below (length (heap (fst (detach_self true s a)))) ch) by now rewrite Hh1.
+    destruct r as [| a' | b | e | | |].
+    all: try (split; [|discriminate]; apply inv0_inv1; revert Er; unfold replace;
+              destruct (cell_at s a) as [c|] eqn:Ec; [|intros [= <-]; exact Hs];
+              destruct (dc_replace H ct late (fst (detach_self true s a)) a ch) as [s2 r2] eqn:Ed;
+              destruct (dc_replace_inv _ _ _ _ _ Hs1 Hch1 Ed) as [Hs2 _];
+              destruct r2; try (intros [= <-]; exact Hs2); try discriminate;
+              destruct (match lookup (k_id c) (reg s) with Some b => _ | None => None end); discriminate).
+    - (* OkNode *)
+      apply replace_ok_is_dc in Er. destruct (dc_replace_inv _ _ _ _ _ Hs1 Hch1 Er) as [Hs2 Hlt].
+      split; [now apply inv0_inv1|]. intros a2 [= <-]. auto.
+    - (* Raised *)
+      split; [|discriminate].
+      apply replace_raised_cases in Er as [c [s2 [Ec [Ed [[El ->]|[El ->]]]]]].
+      + destruct (dc_replace_inv _ _ _ _ _ Hs1 Hch1 Ed) as [Hs2 _].
+        rewrite (detach_self_registered _ _ _ Ec El) in *. simpl in *.
+        destruct (I_det _ Hs _ _ (lookup_in _ _ _ El)) as [Hnd Hng].
+        apply dc_replace_raised in Ed as [->|[c1 [a1 [Ec1 Ea]]]].
+        * apply restore_inv1; simpl; auto. intros x Hin. apply remove_in in Hin as [_ Hne]. congruence.
+        * pose proof Ea as Esh. apply alloc_shape in Esh as [i [_ [_ [_ Esh]]]]. simpl in Esh.
+          assert (Hc2 : cell_at s2 a = Some c).
+          { subst s2. unfold cell_at in *; simpl. rewrite nth_error_app1; auto. apply nth_error_Some. congruence. }
+          apply (restore_inv1 s2 a c (det s) Hs2 Hc2); try (subst s2; simpl; auto; fail).
+          intros x Hin. apply unreachable_above with (n := length (heap s)).
+          -- exact (I_heap _ Hs2).
+          -- subst s2. unfold roots; simpl. exact (I_roots _ Hs).
+          -- subst s2. simpl in Hin. destruct Hin as [E|Hin]; [injection E as _ <-; lia|].
+             apply remove_in in Hin as [_ Hne]. congruence.
+      + destruct (dc_replace_inv _ _ _ _ _ Hs1 Hch1 Ed) as [Hs2 _]. now apply inv0_inv1.
   Qed.
 End Inv2.
 
 (* ================= duplicate ================= *)
-Lemma mapM_st_spec {S A B} (f : S -> A -> option (S * B)) (P : S -> Prop) (R : S -> S -> Prop) (Q : S -> B -> Prop) :
+Lemma mapM_d_spec {A B} (f : st -> A -> dres B) (P : st -> Prop) (R : st -> st -> Prop) (Q : st -> B -> Prop) :
   (forall s, R s s) -> (forall a b c, R a b -> R b c -> R a c) ->
   (forall s s' y, Q s y -> R s s' -> Q s' y) ->
-  (forall s x s' y, P s -> f s x = Some (s', y) -> P s' /\ R s s' /\ Q s' y) ->
-  forall l s s' ys, P s -> mapM_st f s l = Some (s', ys) -> P s' /\ R s s' /\ Forall (Q s') ys.
+  (forall s x, P s -> match f s x with
+                      | DOk s' y => P s' /\ R s s' /\ Q s' y
+                      | DLate s' => P s' /\ R s s'
+                      | DFuel => True
+                      end) ->
+  forall l s, P s -> match mapM_d f s l with
+                     | DOk s' ys => P s' /\ R s s' /\ Forall (Q s') ys
+                     | DLate s' => P s' /\ R s s'
+                     | DFuel => True
+                     end.
 Proof.
-  intros Rrefl Rtrans Qmono Hf. induction l as [|x l IH]; simpl; intros s s' ys Hs.
-  - intros [= <- <-]. auto.
-  - destruct (f s x) as [[s1 y]|] eqn:Ef; [|discriminate].
-    destruct (mapM_st f s1 l) as [[s2 ys']|] eqn:Em; [|discriminate]. intros [= <- <-].
-    destruct (Hf _ _ _ _ Hs Ef) as [Hs1 [R1 Q1]]. destruct (IH _ _ _ Hs1 Em) as [Hs2 [R2 Q2]].
-    split; auto. split; [eauto|]. constructor; eauto.
+  intros Rrefl Rtrans Qmono Hf. induction l as [|x l IH]; simpl; intros s Hs; [auto|].
+  specialize (Hf s x Hs). destruct (f s x) as [s1 y|s1|]; auto.
+  destruct Hf as [Hs1 [R1 Q1]]. specialize (IH s1 Hs1).
+  destruct (mapM_d f s1 l) as [s2 ys|s2|]; auto.
+  - destruct IH as [Hs2 [R2 Q2]]. split; auto. split; [eauto|]. constructor; eauto.
+  - destruct IH as [Hs2 R2]. split; eauto.
 Qed.
 
-(* the heap and the registry only grow; ghost sets and variables are untouched *)
+(* the heap and the registry only grow (new entries are entries of new cells); ghost sets and variables are untouched *)
 Definition grow (s s' : st) : Prop :=
-  (exists ext, heap s' = heap s ++ ext) /\ (exists nr, reg s' = nr ++ reg s) /\
+  (exists ext, heap s' = heap s ++ ext) /\
+  (exists nr, reg s' = nr ++ reg s /\ forall e, In e nr -> length (heap s) <= snd e) /\
   vars s' = vars s /\ det s' = det s /\ gone s' = gone s.
 (* every cell at an address >= n is registered under its id and has its children at addresses >= n *)
 Definition range_ok (n : nat) (s' : st) : Prop :=
@@ -470,22 +635,29 @@ Definition range_ok (n : nat) (s' : st) : Prop :=
     exists c, cell_at s' x = Some c /\ (forall k, In k (all_kids c) -> n <= k) /\ In (k_id c, x) (reg s').
 
 Lemma grow_refl s : grow s s.
-Proof. repeat split; try (exists []; now rewrite ?app_nil_r). Qed.
-Lemma grow_trans a b c : grow a b -> grow b c -> grow a c.
 Proof.
-  intros [[e1 H1] [[n1 R1] [V1 [D1 G1]]]] [[e2 H2] [[n2 R2] [V2 [D2 G2]]]].
-  repeat split; try congruence.
-  - exists (e1 ++ e2). now rewrite H2, H1, app_assoc.
-  - exists (n2 ++ n1). now rewrite R2, R1, app_assoc.
+  repeat split; try (exists []; now rewrite ?app_nil_r).
+  all: exists []; split; [reflexivity|intros e []].
 Qed.
 Lemma grow_len s s' : grow s s' -> length (heap s) <= length (heap s').
 Proof. intros [[e ->] _]. rewrite app_length. lia. Qed.
+Lemma grow_trans a b c : grow a b -> grow b c -> grow a c.
+Proof.
+  intros G1 G2. pose proof (grow_len _ _ G1) as Hl.
+  destruct G1 as [[e1 H1] [[n1 [R1 A1]] [V1 [D1 G1]]]]. destruct G2 as [[e2 H2] [[n2 [R2 A2]] [V2 [D2 G2]]]].
+  repeat split; try congruence.
+  - exists (e1 ++ e2). now rewrite H2, H1, app_assoc.
+  - exists (n2 ++ n1). split; [now rewrite R2, R1, app_assoc|].
+    intros e Hin. apply in_app_or in Hin as [Hin|Hin]; [specialize (A2 _ Hin); lia|auto].
+Qed.
 Lemma grow_cell s s' x c : grow s s' -> cell_at s x = Some c -> cell_at s' x = Some c.
 Proof.
   intros [[e He] _] Hc. unfold cell_at in *. rewrite He, nth_error_app1; auto. apply nth_error_Some. congruence.
 Qed.
 Lemma grow_reg s s' e : grow s s' -> In e (reg s) -> In e (reg s').
-Proof. intros [_ [[n ->] _]] Hin. apply in_or_app. auto. Qed.
+Proof. intros [_ [[n [-> _]] _]] Hin. apply in_or_app. auto. Qed.
+Lemma grow_reg_inv s s' e : grow s s' -> In e (reg s') -> In e (reg s) \/ length (heap s) <= snd e.
+Proof. intros [_ [[n [-> Hn]] _]] Hin. apply in_app_or in Hin as [Hin|Hin]; auto. Qed.
 
 Definition growR (s s' : st) : Prop := grow s s' /\ range_ok (length (heap s)) s'.
 Lemma growR_refl s : growR s s.
@@ -504,103 +676,163 @@ Qed.
 Section DupProofs.
   Variable H : pystr -> pystr.
   Variable ct : ctable.
+  Variable late : st -> nat -> bool.
 
   Lemma alloc_grow s c o ps ks s' a : alloc H ct s c o ps ks = Some (s', a) -> grow s s'.
   Proof.
     intro Ea. apply alloc_shape in Ea as [i [_ [_ [_ ->]]]]. repeat split; simpl; auto.
     - eexists; reflexivity.
-    - exists [(i, length (heap s))]. reflexivity.
+    - exists [(i, length (heap s))]. split; [reflexivity|]. intros e [<-|[]]. simpl. lia.
   Qed.
 
-  Lemma dup_spec : forall fuel s a s' a', Inv0 s -> dup H ct fuel s a = Some (s', a') ->
-    Inv0 s' /\ growR s s' /\ length (heap s) <= a' < length (heap s').
+  (* one construction on top of copies built since state s *)
+  Lemma alloc_growR s s1 c o ps ks s' a : Inv0 s1 -> growR s s1 ->
+    (forall k, In k (flat_map (fun k => snd (snd k)) ks) -> length (heap s) <= k < length (heap s1)) ->
+    alloc H ct s1 c o ps ks = Some (s', a) ->
+    Inv0 s' /\ growR s s' /\ length (heap s) <= a < length (heap s').
   Proof.
-    induction fuel as [|f IH]; simpl; intros s a s' a' Hs; [discriminate|].
-    destruct (cell_at s a) as [c|] eqn:Ec; [|discriminate].
+    intros Hs1 G1 Hbelow Ea. pose proof (grow_len _ _ (proj1 G1)) as Hn1.
+    assert (Hs' : Inv0 s') by (eapply alloc_inv; eauto; intros k Hk; apply Hbelow in Hk; lia).
+    pose proof (alloc_grow _ _ _ _ _ _ _ Ea) as G2.
+    apply alloc_shape in Ea as [i [_ [-> [_ ->]]]].
+    split; auto. split; [|simpl; rewrite app_length; simpl; lia].
+    split; [eapply grow_trans; [exact (proj1 G1)|exact G2]|].
+    intros x Hx. simpl in Hx. rewrite app_length in Hx; simpl in Hx.
+    destruct (Nat.lt_ge_cases x (length (heap s1))) as [Hlt|Hge].
+    - destruct (proj2 G1 x) as [cx [Hc [Hk Hr]]]; [lia|]. exists cx. repeat split; auto.
+      + eapply grow_cell; eauto.
+      + eapply grow_reg; eauto.
+    - assert (x = length (heap s1)) by lia. subst x.
+      eexists. split; [unfold cell_at; simpl; rewrite nth_error_app2, Nat.sub_diag by lia; reflexivity|].
+      split; [|simpl; auto]. intros k Hk. unfold all_kids in Hk; simpl in Hk. apply Hbelow in Hk. lia.
+  Qed.
+
+  (* duplicate, whether it returns or a copy's validation raises on the way: invariant kept, heap and registry
+     only grow, every new cell is registered and points at new cells only *)
+  Lemma dup_spec_gen : forall fuel s a, Inv0 s ->
+    match dup H ct late fuel s a with
+    | DOk s' a' => Inv0 s' /\ growR s s' /\ length (heap s) <= a' < length (heap s')
+    | DLate s' => Inv0 s' /\ growR s s'
+    | DFuel => True
+    end.
+  Proof.
+    induction fuel as [|f IH]; simpl; intros s a Hs; [exact I|].
+    destruct (cell_at s a) as [c|] eqn:Ec; [|exact I].
     set (n := length (heap s)).
-    destruct (mapM_st _ s (k_kids c)) as [[s1 ks']|] eqn:Em; [|discriminate].
-    intro Ea.
     pose (P := fun t : st => Inv0 t /\ n <= length (heap t)).
     pose (Q := fun (t : st) (y : nat) => n <= y < length (heap t)).
     pose (Q' := fun (t : st) (k : pystr * (kshape * list nat)) => Forall (Q t) (snd (snd k))).
     assert (Qmono : forall t t' y, Q t y -> growR t t' -> Q t' y).
     { intros t t' y [? ?] [G _]. apply grow_len in G. unfold Q. lia. }
-    assert (Hinner : forall t x t' y, P t -> dup H ct f t x = Some (t', y) -> P t' /\ growR t t' /\ Q t' y).
-    { intros t x t' y [Ht Hn] Ed. destruct (IH _ _ _ _ Ht Ed) as [Ht' [G Hy]].
-      pose proof (grow_len _ _ (proj1 G)). unfold P, Q. split; [split; [auto|lia]|split; [exact G|lia]]. }
-    assert (Houter : forall t k t' y, P t ->
-       match mapM_st (dup H ct f) t (snd (snd k)) with
-       | Some (t', l) => Some (t', (fst k, (fst (snd k), l)))
-       | None => None
-       end = Some (t', y) -> P t' /\ growR t t' /\ Q' t' y).
-    { intros t k t' y Ht. destruct (mapM_st (dup H ct f) t (snd (snd k))) as [[t1 l]|] eqn:E1; [|discriminate].
-      intros [= <- <-]. unfold Q'; simpl.
-      exact (mapM_st_spec _ P growR Q growR_refl growR_trans Qmono Hinner _ _ _ _ Ht E1). }
+    assert (Hinner : forall t x, P t -> match dup H ct late f t x with
+                                        | DOk t' y => P t' /\ growR t t' /\ Q t' y
+                                        | DLate t' => P t' /\ growR t t'
+                                        | DFuel => True
+                                        end).
+    { intros t x [Ht Hn]. specialize (IH t x Ht). destruct (dup H ct late f t x) as [t' y|t'|]; auto.
+      - destruct IH as [Ht' [G Hy]]. pose proof (grow_len _ _ (proj1 G)). unfold P, Q.
+        split; [split; [auto|lia]|split; [exact G|lia]].
+      - destruct IH as [Ht' G]. pose proof (grow_len _ _ (proj1 G)). unfold P. split; [split; [auto|lia]|exact G]. }
+    assert (Houter : forall t k, P t ->
+       match (match mapM_d (dup H ct late f) t (snd (snd k)) with
+              | DOk t' l => DOk t' (fst k, (fst (snd k), l))
+              | DLate t' => DLate t'
+              | DFuel => DFuel
+              end) with
+       | DOk t' y => P t' /\ growR t t' /\ Q' t' y
+       | DLate t' => P t' /\ growR t t'
+       | DFuel => True
+       end).
+    { intros t k Ht.
+      pose proof (mapM_d_spec _ P growR Q growR_refl growR_trans Qmono Hinner (snd (snd k)) t Ht) as M.
+      destruct (mapM_d (dup H ct late f) t (snd (snd k))) as [t1 l|t1|]; auto. }
     assert (Q'mono : forall t t' y, Q' t y -> growR t t' -> Q' t' y).
     { intros t t' y Hq G. unfold Q' in *. eapply Forall_impl; [|exact Hq]. intros z Hz. eapply Qmono; eauto. }
     assert (Hp0 : P s) by (split; auto).
-    destruct (mapM_st_spec _ P growR Q' growR_refl growR_trans Q'mono Houter _ _ _ _ Hp0 Em) as [[Hs1 Hn1] [G1 Hq]].
-    assert (Hbelow : forall k, In k (flat_map (fun k => snd (snd k)) ks') -> n <= k < length (heap s1)).
-    { intros k Hin. apply in_flat_map in Hin as [e [He Hk]]. rewrite Forall_forall in Hq.
-      specialize (Hq _ He). unfold Q' in Hq. rewrite Forall_forall in Hq. apply Hq. auto. }
-    assert (Hs' : Inv0 s') by (eapply alloc_inv; eauto; intros k Hk; apply Hbelow in Hk; lia).
-    pose proof (alloc_grow _ _ _ _ _ _ _ Ea) as G2.
-    apply alloc_shape in Ea as [i [_ [-> [_ ->]]]].
-    split; auto. split; [|simpl; rewrite app_length; simpl; fold n; lia].
-    split; [eapply grow_trans; [exact (proj1 G1)|exact G2]|].
-    intros x Hx. simpl in Hx. rewrite app_length in Hx; simpl in Hx.
-    destruct (Nat.lt_ge_cases x (length (heap s1))) as [Hlt|Hge].
-    - destruct (proj2 G1 x) as [cx [Hc [Hk Hr]]]; [fold n; lia|]. exists cx. repeat split; auto.
-      + eapply grow_cell; eauto.
-      + eapply grow_reg; eauto.
-    - assert (x = length (heap s1)) by lia. subst x.
-      eexists. split; [unfold cell_at; simpl; rewrite nth_error_app2, Nat.sub_diag by lia; reflexivity|].
-      split; [|simpl; auto]. intros k Hk. unfold all_kids in Hk; simpl in Hk. apply Hbelow in Hk. fold n. lia.
+    pose proof (mapM_d_spec _ P growR Q' growR_refl growR_trans Q'mono Houter (k_kids c) s Hp0) as M.
+    destruct (mapM_d _ s (k_kids c)) as [s1 ks'|s1|]; auto.
+    - destruct M as [[Hs1 Hn1] [G1 Hq]].
+      assert (Hbelow : forall k, In k (flat_map (fun k => snd (snd k)) ks') -> n <= k < length (heap s1)).
+      { intros k Hin. apply in_flat_map in Hin as [e [He Hk]]. rewrite Forall_forall in Hq.
+        specialize (Hq _ He). unfold Q' in Hq. rewrite Forall_forall in Hq. apply Hq. auto. }
+      destruct (construct H ct late s1 (k_cls c) (k_org c) (k_props c) ks') as [s' a'|s'|] eqn:Eco; auto.
+      + apply construct_ok in Eco as [Ea _]. eapply alloc_growR; eauto.
+      + apply construct_late in Eco as [a' [Ea _]].
+        destruct (alloc_growR _ _ _ _ _ _ _ _ Hs1 G1 Hbelow Ea) as [? [? _]]. auto.
+    - destruct M as [[Hs1 _] G1]. auto.
   Qed.
+
+  Lemma dup_spec fuel s a s' a' : Inv0 s -> dup H ct late fuel s a = DOk s' a' ->
+    Inv0 s' /\ growR s s' /\ length (heap s) <= a' < length (heap s').
+  Proof. intros Hs E. pose proof (dup_spec_gen fuel s a Hs) as M. now rewrite E in M. Qed.
+  Lemma dup_spec_late fuel s a s' : Inv0 s -> dup H ct late fuel s a = DLate s' -> Inv0 s' /\ growR s s'.
+  Proof. intros Hs E. pose proof (dup_spec_gen fuel s a Hs) as M. now rewrite E in M. Qed.
 End DupProofs.
 
 (* ================= every step preserves the invariant ================= *)
 Section StepProofs.
   Variable H : pystr -> pystr.
   Variable ct : ctable.
+  Variable late : st -> nat -> bool.
 
-  Lemma bind_inv dst r : Inv0 (fst r) -> Inv0 (fst (bind dst r)).
-  Proof. destruct r as [s [| a | b | e | | |]]; simpl; auto. apply set_var_inv. Qed.
+  Lemma alloc_addr s c o ps ks s' a : alloc H ct s c o ps ks = Some (s', a) -> a < length (heap s').
+  Proof. intro Ea. apply alloc_shape in Ea as [i [_ [-> [_ ->]]]]. simpl. rewrite app_length; simpl. lia. Qed.
 
-  Lemma step_raw_inv s o : Inv0 s -> Inv0 (fst (step_raw H ct true s o)).
+  Lemma bind_inv dst r : Inv0 (fst r) -> (forall a, snd r = OkNode a -> a < length (heap (fst r))) ->
+    Inv0 (fst (bind dst r)).
   Proof.
-    intro Hs. destruct o as [dst c og ps ks|dst src|dst src ch|dst src ch|x|x|v|x k]; simpl.
-    - destruct (negb _); [exact Hs|]. destruct (new_args ct s c ps ks) as [| |ks'] eqn:En; try exact Hs.
-      destruct (alloc H ct s c og ps ks') as [[s' a]|] eqn:Ea; [|exact Hs]. simpl.
-      apply set_var_inv. eapply alloc_inv; eauto. eapply new_args_below; eauto.
-    - destruct (negb _); [exact Hs|]. destruct (resolve s src) as [a|]; [|exact Hs].
-      destruct (dup H ct (length (heap s)) s a) as [[s' a']|] eqn:Ed; [|exact Hs]. simpl.
-      apply set_var_inv. eapply dup_spec; eauto.
-    - destruct (negb _); [exact Hs|]. destruct (resolve s src) as [a|]; [|exact Hs].
-      destruct (cell_at s a) as [c|] eqn:Ec; [|exact Hs].
-      destruct (changes ct s (k_cls c) ch) as [| |ch'] eqn:Ech; try exact Hs.
-      apply bind_inv. destruct (dc_replace H ct s a ch') as [s' r] eqn:Ed. simpl.
-      eapply dc_replace_inv; eauto. eapply changes_are_below; eauto.
-    - destruct (negb _); [exact Hs|]. destruct (resolve s src) as [a|]; [|exact Hs].
-      destruct (cell_at s a) as [c|] eqn:Ec; [|exact Hs].
-      destruct (changes ct s (k_cls c) ch) as [| |ch'] eqn:Ech; try exact Hs.
-      apply bind_inv. destruct (replace H ct true s a ch') as [s' r] eqn:Ed. simpl.
-      eapply replace_inv; eauto. eapply changes_are_below; eauto.
-    - destruct (resolve s x) as [a|]; [|exact Hs]. simpl. now apply detach_inv.
-    - destruct (resolve s x) as [a|]; [|exact Hs].
-      pose proof (detach_self_inv s a Hs). destruct (detach_self true s a); auto.
-    - now apply set_var_inv.
-    - destruct (resolve s x); exact Hs.
+    destruct r as [s [| a | b | e | | |]]; simpl; auto. intros Hs Ha. apply set_var_inv; auto.
+    intros a0 [= <-]. auto.
+  Qed.
+  Lemma bind_inv1 dst r : Inv1 (fst r) -> (forall a, snd r = OkNode a -> Inv0 (fst r) /\ a < length (heap (fst r))) ->
+    Inv1 (fst (bind dst r)).
+  Proof.
+    destruct r as [s [| a | b | e | | |]]; simpl; auto. intros _ Ha. destruct (Ha a eq_refl) as [Hs Hlt].
+    apply inv0_inv1. apply set_var_inv; auto. intros a0 [= <-]. auto.
   Qed.
 
-  Lemma step_inv0 s o : Inv0 s -> RInv (fst (step H ct true s o)).
+  Lemma step_raw_inv s o : Inv0 s -> Inv1 (fst (step_raw H ct late true s o)).
+  Proof.
+    intro Hs. pose proof (inv0_inv1 s Hs) as Hs1.
+    destruct o as [dst c og ps ks|dst src|dst src ch|dst src ch|x|x|v|x k]; simpl.
+    - destruct (negb _); [exact Hs1|]. destruct (new_args ct s c ps ks) as [| |ks'] eqn:En; try exact Hs1.
+      destruct (construct H ct late s c og ps ks') as [s' a|s'|] eqn:Eco; [| |exact Hs1]; simpl.
+      + apply construct_ok in Eco as [Ea _]. apply inv0_inv1. apply set_var_inv.
+        * eapply alloc_inv; eauto. eapply new_args_below; eauto.
+        * intros a0 [= <-]. eapply alloc_addr; eauto.
+      + apply construct_late in Eco as [a [Ea _]]. apply inv0_inv1. eapply alloc_inv; eauto. eapply new_args_below; eauto.
+    - destruct (negb _); [exact Hs1|]. destruct (resolve s src) as [a|]; [|exact Hs1].
+      pose proof (dup_spec_gen H ct late (length (heap s)) s a Hs) as M.
+      destruct (dup H ct late (length (heap s)) s a) as [s' a'|s'|]; [| |exact Hs1]; simpl.
+      + destruct M as [Hs' [_ Ha']]. apply inv0_inv1. apply set_var_inv; auto. intros a0 [= <-]. lia.
+      + apply inv0_inv1. apply M.
+    - destruct (negb _); [exact Hs1|]. destruct (resolve s src) as [a|]; [|exact Hs1].
+      destruct (cell_at s a) as [c|] eqn:Ec; [|exact Hs1].
+      destruct (changes ct s (k_cls c) ch) as [| |ch'] eqn:Ech; try exact Hs1.
+      destruct (dc_replace H ct late s a ch') as [s' r] eqn:Ed.
+      destruct (dc_replace_inv H ct late _ _ _ _ _ Hs (changes_are_below ct _ _ _ _ Ech) Ed) as [Hs' Hlt].
+      apply inv0_inv1. apply bind_inv; auto.
+    - destruct (negb _); [exact Hs1|]. destruct (resolve s src) as [a|]; [|exact Hs1].
+      destruct (cell_at s a) as [c|] eqn:Ec; [|exact Hs1].
+      destruct (changes ct s (k_cls c) ch) as [| |ch'] eqn:Ech; try exact Hs1.
+      destruct (replace H ct late true s a ch') as [s' r] eqn:Ed.
+      destruct (replace_inv H ct late _ _ _ _ _ Hs (changes_are_below ct _ _ _ _ Ech) Ed) as [Hs' Hok].
+      apply bind_inv1; auto.
+    - destruct (resolve s x) as [a|]; [|exact Hs1]. simpl. apply inv0_inv1. now apply detach_inv.
+    - destruct (resolve s x) as [a|]; [|exact Hs1].
+      pose proof (detach_self_inv s a Hs). destruct (detach_self true s a); simpl in *. now apply inv0_inv1.
+    - apply inv0_inv1. apply set_var_inv; auto. discriminate.
+    - destruct (resolve s x); exact Hs1.
+  Qed.
+
+  Lemma step_inv0 s o : Inv0 s -> RInv (fst (step H ct late true s o)).
   Proof.
     intro Hs. unfold step. pose proof (step_raw_inv s o Hs) as Hr.
-    destruct (step_raw H ct true s o) as [s' r]. simpl in *. now apply gc_inv.
+    destruct (step_raw H ct late true s o) as [s' r]. simpl in *. now apply gc_inv1.
   Qed.
-  Theorem step_inv s o : RInv s -> RInv (fst (step H ct true s o)).
+  Theorem step_inv s o : RInv s -> RInv (fst (step H ct late true s o)).
   Proof. intros [Hs _]. now apply step_inv0. Qed.
-  Theorem run_inv l : forall s, RInv s -> RInv (run H ct true s l).
+  Theorem run_inv l : forall s, RInv s -> RInv (run H ct late true s l).
   Proof. induction l as [|o l IH]; simpl; auto. intros s Hs. apply IH. now apply step_inv. Qed.
 End StepProofs.
 
@@ -665,56 +897,85 @@ Proof.
   now rewrite !lookup_remove_other.
 Qed.
 
-Section Frame.
+Lemma lookup_equiv r r' : NoDup (keys r) -> NoDup (keys r') ->
+  (forall j x, In (j, x) r' <-> In (j, x) r) -> forall j, lookup j r' = lookup j r.
+Proof.
+  intros Hn Hn' Heq j. destruct (lookup j r) as [a|] eqn:E.
+  - apply lookup_in in E. apply Heq in E. now apply in_lookup.
+  - destruct (lookup j r') as [b|] eqn:E'; auto. apply lookup_in in E'. apply Heq in E'.
+    apply lookup_none in E. apply in_keys in E'. tauto.
+Qed.
+
+Lemma bind_raised dst r s' e : bind dst r = (s', Raised e) -> r = (s', Raised e).
+Proof. destruct r as [s [| a | b | e' | | |]]; simpl; auto; discriminate. Qed.
+
+(* what a raising operation leaves behind (before the collection that ends the step): the heap has only grown, variables
+   and the ghost `gone` are as they were, every old registration is still there, and whatever else is registered is a
+   node built by the failed call *)
+Definition failrel (s s2 : st) : Prop :=
+  (exists ext, heap s2 = heap s ++ ext) /\ vars s2 = vars s /\ gone s2 = gone s /\
+  (forall e, In e (reg s) -> In e (reg s2)) /\
+  (forall e, In e (reg s2) -> In e (reg s) \/ length (heap s) <= snd e).
+Lemma grow_failrel s s2 : grow s s2 -> failrel s s2.
+Proof.
+  intros G. destruct G as [Hh [[nr [Hr Hn]] [Hv [_ Hg]]]]. repeat split; auto.
+  - intros e Hin. rewrite Hr. apply in_or_app. auto.
+  - intros e Hin. rewrite Hr in Hin. apply in_app_or in Hin as [Hin|Hin]; auto.
+Qed.
+
+Section Fail.
   Variable H : pystr -> pystr.
   Variable ct : ctable.
+  Variable late : st -> nat -> bool.
 
-  Lemma replace_raised s a ch s' e : Inv0 s -> replace H ct true s a ch = (s', Raised e) ->
-    heap s' = heap s /\ vars s' = vars s /\ NoDup (keys (reg s')) /\
-    forall j x, In (j, x) (reg s') <-> In (j, x) (reg s).
+  Lemma dc_replace_raised_grow s a ch s' e : dc_replace H ct late s a ch = (s', Raised e) -> grow s s'.
   Proof.
-    intro Hs. unfold replace. destruct (cell_at s a) as [c|] eqn:Ec; [|discriminate].
-    destruct (dc_replace H ct (fst (detach_self true s a)) a ch) as [s2 r2] eqn:Ed.
-    destruct r2; try discriminate.
-    apply dc_replace_raised in Ed. subst s2.
-    destruct (lookup (k_id c) (reg s)) as [b|] eqn:El.
-    - destruct (Nat.eqb_spec a b) as [<-|Hne]; simpl.
-      + rewrite Ec, (detach_self_registered _ _ _ Ec El). simpl. intros [= <- _]. simpl.
-        destruct (restore_equiv (k_id c) a (reg s) (I_fun _ Hs) (lookup_in _ _ _ El)) as [Hnd Heq]. auto.
-      + rewrite (detach_self_unregistered _ _ _ Ec) by congruence. simpl. intros [= <- _]. simpl.
-        repeat split; auto; apply (I_fun _ Hs).
-    - rewrite (detach_self_unregistered _ _ _ Ec) by congruence. simpl. intros [= <- _]. simpl.
-      repeat split; auto; apply (I_fun _ Hs).
+    intro Ed. apply dc_replace_raised in Ed as [->|[c [a' [_ Ea]]]]; [apply grow_refl|eapply alloc_grow; eauto].
   Qed.
 
-  Lemma lookup_equiv r r' : NoDup (keys r) -> NoDup (keys r') ->
-    (forall j x, In (j, x) r' <-> In (j, x) r) -> forall j, lookup j r' = lookup j r.
+  Lemma replace_raised_failrel s a ch s' e : Inv0 s -> replace H ct late true s a ch = (s', Raised e) -> failrel s s'.
   Proof.
-    intros Hn Hn' Heq j. destruct (lookup j r) as [a|] eqn:E.
-    - apply lookup_in in E. apply Heq in E. now apply in_lookup.
-    - destruct (lookup j r') as [b|] eqn:E'; auto. apply lookup_in in E'. apply Heq in E'.
-      apply lookup_none in E. apply in_keys in E'. tauto.
+    intros Hs Er. apply replace_raised_cases in Er as [c [s2 [Ec [Ed [[El ->]|[El ->]]]]]].
+    - rewrite (detach_self_registered _ _ _ Ec El) in Ed. simpl in Ed.
+      apply dc_replace_raised_grow in Ed. destruct Ed as [Hh [[nr [Hr Hn]] [Hv [_ Hg]]]]. simpl in *.
+      repeat split; auto; simpl.
+      + intros [j x] Hin. destruct (pystr_eqb_spec j (k_id c)) as [->|Hne].
+        * left. f_equal. apply (in_lookup _ _ _ (I_fun _ Hs)) in Hin. congruence.
+        * right. apply remove_in. split; auto. rewrite Hr. apply in_or_app. right. apply remove_in. auto.
+      + intros [j x] [E|Hin].
+        * injection E as <- <-. left. now apply lookup_in.
+        * apply remove_in in Hin as [Hin _]. rewrite Hr in Hin. apply in_app_or in Hin as [Hin|Hin]; [right; auto|].
+          left. apply remove_in in Hin. tauto.
+    - rewrite (detach_self_unregistered _ _ _ Ec El) in Ed. simpl in Ed.
+      apply dc_replace_raised_grow in Ed. destruct Ed as [Hh [[nr [Hr Hn]] [Hv [_ Hg]]]]. simpl in *.
+      repeat split; auto.
+      + intros e0 Hin. rewrite Hr. apply in_or_app. auto.
+      + intros e0 Hin. rewrite Hr in Hin. apply in_app_or in Hin as [Hin|Hin]; auto.
   Qed.
 
-  Lemma bind_raised dst r s' e : bind dst r = (s', Raised e) -> r = (s', Raised e).
-  Proof. destruct r as [s [| a | b | e' | | |]]; simpl; auto; discriminate. Qed.
-
-  Theorem replace_fail_frame s dst src ch s' e : RInv s ->
-    step H ct true s (Replace dst src ch) = (s', Raised e) ->
-    heap s' = heap s /\ vars s' = vars s /\ forall j, get_any s' j = get_any s j.
+  Lemma step_raw_raised s o s2 e : Inv0 s -> step_raw H ct late true s o = (s2, Raised e) -> failrel s s2.
   Proof.
-    intros [Hs Hr]. unfold step. destruct (step_raw H ct true s (Replace dst src ch)) as [s2 r] eqn:Er.
-    intros [= <- ->]. simpl in Er.
-    destruct (negb _); [discriminate|]. destruct (resolve s src) as [a|]; [|discriminate].
-    destruct (cell_at s a) as [c|]; [|discriminate].
-    destruct (changes ct s (k_cls c) ch) as [| |ch']; try discriminate.
-    apply bind_raised in Er. destruct (replace_raised _ _ _ _ _ Hs Er) as [Hh [Hv [Hnd Heq]]].
-    simpl. repeat split; auto. intro j. unfold get_any. simpl.
-    rewrite (reach_ext _ _ Hh Hv). rewrite filter_all.
-    - apply lookup_equiv; auto. apply (I_fun _ Hs).
-    - intros [i x] Hin. simpl. apply Heq in Hin. exact (Hr _ _ Hin).
+    intro Hs. destruct o as [dst c og ps ks|dst src|dst src ch|dst src ch|x|x|v|x k]; simpl.
+    - destruct (negb _); [discriminate|]. destruct (new_args ct s c ps ks) as [| |ks']; try discriminate.
+      destruct (construct H ct late s c og ps ks') as [s' a|s'|] eqn:Eco; try (simpl; discriminate).
+      intros [= <- _]. apply construct_late in Eco as [a [Ea _]]. apply grow_failrel. eapply alloc_grow; eauto.
+    - destruct (negb _); [discriminate|]. destruct (resolve s src) as [a|]; [|discriminate].
+      destruct (dup H ct late (length (heap s)) s a) as [s' a'|s'|] eqn:Ed; try (simpl; discriminate).
+      intros [= <- _]. apply grow_failrel. apply (dup_spec_late H ct late _ _ _ _ Hs Ed).
+    - destruct (negb _); [discriminate|]. destruct (resolve s src) as [a|]; [|discriminate].
+      destruct (cell_at s a) as [c|]; [|discriminate].
+      destruct (changes ct s (k_cls c) ch) as [| |ch']; try discriminate.
+      intro Eb. apply bind_raised in Eb. apply grow_failrel. eapply dc_replace_raised_grow; eauto.
+    - destruct (negb _); [discriminate|]. destruct (resolve s src) as [a|]; [|discriminate].
+      destruct (cell_at s a) as [c|]; [|discriminate].
+      destruct (changes ct s (k_cls c) ch) as [| |ch']; try discriminate.
+      intro Eb. apply bind_raised in Eb. eapply replace_raised_failrel; eauto.
+    - destruct (resolve s x); discriminate.
+    - destruct (resolve s x) as [a|]; [|discriminate]. destruct (detach_self true s a). discriminate.
+    - discriminate.
+    - destruct (resolve s x); discriminate.
   Qed.
-End Frame.
+End Fail.
 
 (* ================= ids ================= *)
 Section Ids.
@@ -761,7 +1022,7 @@ Definition demo_ct : ctable := [{| cd_name := lit "A"; cd_bases := []; cd_own :=
 Definition demo_H (s : pystr) : pystr := s.
 Definition demo_ops : list op :=
   [New 0 (lit "A") ONo [] []; DetachSelf (0, 0); New 1 (lit "A") ONo [] []; DetachSelf (0, 0)].
-Definition demo (fx : bool) : st := run demo_H demo_ct fx (init_st 2) demo_ops.
+Definition demo (fx : bool) : st := run demo_H demo_ct no_late fx (init_st 2) demo_ops.
 
 (* unrepaired: after x.detach_self(); y = twin; x.detach_self() the live, never detached y (address 1) is not found *)
 Lemma refuted_double_detach :
@@ -797,26 +1058,27 @@ Qed.
 Section Copies.
   Variable H : pystr -> pystr.
   Variable ct : ctable.
+  Variable late : st -> nat -> bool.
 
   (* every node of the copy is a new object, registered under its id *)
-  Theorem dup_fresh fuel s a s' a' : Inv0 s -> dup H ct fuel s a = Some (s', a') ->
+  Theorem dup_fresh fuel s a s' a' : Inv0 s -> dup H ct late fuel s a = DOk s' a' ->
     forall x, In x (tree_of s' a') ->
       length (heap s) <= x /\ exists c, cell_at s' x = Some c /\ get_any s' (k_id c) = Some x.
   Proof.
-    intros Hs Ed x Hx. destruct (dup_spec H ct _ _ _ _ _ Hs Ed) as [Hs' [[G Hr] Ha']].
+    intros Hs Ed x Hx. destruct (dup_spec H ct late _ _ _ _ _ Hs Ed) as [Hs' [[G Hr] Ha']].
     assert (Hge : length (heap s) <= x) by (apply (pre_above _ _ Hr (length (heap s')) a' x); [lia|exact Hx]).
     split; auto. apply pre_in_bound in Hx. destruct (Hr x) as [c [Hc [_ Hin]]]; [lia|].
     exists c. split; auto. apply in_lookup; auto. apply (I_fun _ Hs').
   Qed.
 
   (* ... and its id is the id of no node registered before the call *)
-  Theorem dup_ids_disjoint fuel s a s' a' : Inv0 s -> dup H ct fuel s a = Some (s', a') ->
+  Theorem dup_ids_disjoint fuel s a s' a' : Inv0 s -> dup H ct late fuel s a = DOk s' a' ->
     forall x c, In x (tree_of s' a') -> cell_at s' x = Some c -> get_any s (k_id c) = None.
   Proof.
-    intros Hs Ed x c Hx Hc. destruct (dup_spec H ct _ _ _ _ _ Hs Ed) as [Hs' [[G Hr] Ha']].
+    intros Hs Ed x c Hx Hc. destruct (dup_spec H ct late _ _ _ _ _ Hs Ed) as [Hs' [[G Hr] Ha']].
     assert (Hge : length (heap s) <= x) by (apply (pre_above _ _ Hr (length (heap s')) a' x); [lia|exact Hx]).
     apply pre_in_bound in Hx. destruct (Hr x) as [c' [Hc' [_ Hin]]]; [lia|]. rewrite Hc in Hc'. injection Hc' as <-.
-    destruct G as [_ [[nr Hnr] _]]. pose proof (I_fun _ Hs') as Hnd. rewrite Hnr in Hnd, Hin.
+    destruct G as [_ [[nr [Hnr _]] _]]. pose proof (I_fun _ Hs') as Hnd. rewrite Hnr in Hnd, Hin.
     unfold keys in Hnd. rewrite map_app in Hnd.
     apply in_app_or in Hin as [Hin|Hin].
     - apply lookup_notin. eapply nodup_app_disjoint; eauto. now apply in_keys in Hin.
@@ -824,46 +1086,65 @@ Section Copies.
   Qed.
 
   (* duplicate never runs out of fuel: the recursion follows children, which have smaller addresses *)
-  Lemma mapM_st_some {S A B} (f : S -> A -> option (S * B)) (P : S -> Prop) :
-    forall l, (forall s x, In x l -> P s -> exists s' y, f s x = Some (s', y) /\ P s') ->
-    forall s, P s -> exists s' ys, mapM_st f s l = Some (s', ys) /\ P s'.
+  Lemma mapM_d_no_fuel {A B} (f : st -> A -> dres B) (P : st -> Prop) :
+    forall l, (forall s x, In x l -> P s -> f s x <> DFuel /\ forall s', (f s x = DLate s' \/ exists y, f s x = DOk s' y) -> P s') ->
+    forall s, P s -> mapM_d f s l <> DFuel /\ forall s', (mapM_d f s l = DLate s' \/ exists y, mapM_d f s l = DOk s' y) -> P s'.
   Proof.
-    induction l as [|x l IH]; simpl; intros Hf s Hs; [eauto|].
-    destruct (Hf s x (or_introl eq_refl) Hs) as [s1 [y [-> Hs1]]].
-    destruct (IH (fun s x Hin => Hf s x (or_intror Hin)) s1 Hs1) as [s2 [ys [-> Hs2]]]. eauto.
+    induction l as [|x l IH]; simpl; intros Hf s Hs.
+    - split; [discriminate|]. intros s' [E|[y E]]; [discriminate|]. now injection E as <- _.
+    - destruct (Hf s x (or_introl eq_refl) Hs) as [Hn Hp]. destruct (f s x) as [s1 y|s1|] eqn:Ef; [| |congruence].
+      + assert (Hs1 : P s1) by (apply Hp; right; eauto).
+        destruct (IH (fun s x Hin => Hf s x (or_intror Hin)) s1 Hs1) as [Hn2 Hp2].
+        destruct (mapM_d f s1 l) as [s2 ys|s2|] eqn:Em; [| |congruence].
+        * split; [discriminate|]. intros s' [E|[y' E]]; [discriminate|]. injection E as <- _. apply Hp2. right; eauto.
+        * split; [discriminate|]. intros s' [E|[y' E]]; [|discriminate]. injection E as <-. apply Hp2. left; auto.
+      + split; [discriminate|]. intros s' [E|[y' E]]; [|discriminate]. injection E as <-. apply Hp. left; auto.
   Qed.
 
   Lemma dup_total : forall fuel s0 s a, Inv0 s0 -> Inv0 s -> grow s0 s -> a < fuel -> a < length (heap s0) ->
-    exists s' a', dup H ct fuel s a = Some (s', a').
+    dup H ct late fuel s a <> DFuel.
   Proof.
     induction fuel as [|f IH]; intros s0 s a Hs0 Hs G Hlt Ha; [lia|]. simpl.
     destruct (cell_at s0 a) as [c|] eqn:Ec0; [|apply nth_error_None in Ec0; lia].
     rewrite (grow_cell _ _ _ _ G Ec0).
     pose (P := fun t : st => Inv0 t /\ grow s0 t).
-    assert (Hin : forall t k, In k (k_kids c) -> P t -> exists t' y,
-       match mapM_st (dup H ct f) t (snd (snd k)) with
-       | Some (t', l) => Some (t', (fst k, (fst (snd k), l)))
-       | None => None
-       end = Some (t', y) /\ P t').
-    { intros t k Hk [Ht Gt].
-      destruct (mapM_st_some (dup H ct f) P (snd (snd k))) with (s := t) as [t' [ys [E Ht']]].
-      - intros t1 x Hx [Ht1 Gt1].
-        assert (x < a) by (eapply (I_heap _ Hs0); eauto; unfold all_kids; apply in_flat_map; eauto).
-        destruct (IH s0 t1 x Hs0 Ht1 Gt1) as [t2 [y E]]; try lia.
-        exists t2, y. split; auto. destruct (dup_spec H ct _ _ _ _ _ Ht1 E) as [Ht2 [[G2 _] _]].
-        split; auto. eapply grow_trans; eauto.
-      - split; auto.
-      - rewrite E. eauto. }
-    destruct (mapM_st_some _ P (k_kids c) Hin s) as [s1 [ks' [-> [Hs1 G1]]]]; [split; auto|].
-    destruct (alloc H ct s1 (k_cls c) (k_org c) (k_props c) ks') as [[s' a']|] eqn:Ea;
-      [eauto|exfalso; revert Ea; apply alloc_some].
+    assert (Hdup : forall t x t', P t -> (dup H ct late f t x = DLate t' \/ exists y, dup H ct late f t x = DOk t' y) -> P t').
+    { intros t x t' [Ht Gt] Hr. pose proof (dup_spec_gen H ct late f t x Ht) as M.
+      destruct Hr as [E|[y E]]; rewrite E in M.
+      - destruct M as [Ht' [G' _]]. split; auto. eapply grow_trans; eauto.
+      - destruct M as [Ht' [[G' _] _]]. split; auto. eapply grow_trans; eauto. }
+    assert (Hin : forall t k, In k (k_kids c) -> P t ->
+       (match mapM_d (dup H ct late f) t (snd (snd k)) with
+        | DOk t' l => DOk t' (fst k, (fst (snd k), l))
+        | DLate t' => DLate t'
+        | DFuel => DFuel
+        end) <> DFuel /\
+       forall t', ((match mapM_d (dup H ct late f) t (snd (snd k)) with
+                    | DOk t' l => DOk t' (fst k, (fst (snd k), l))
+                    | DLate t' => DLate t'
+                    | DFuel => DFuel
+                    end) = DLate t' \/
+                   exists y, (match mapM_d (dup H ct late f) t (snd (snd k)) with
+                              | DOk t' l => DOk t' (fst k, (fst (snd k), l))
+                              | DLate t' => DLate t'
+                              | DFuel => DFuel
+                              end) = DOk t' y) -> P t').
+    { intros t k Hk Ht.
+      destruct (mapM_d_no_fuel (dup H ct late f) P (snd (snd k))) with (s := t) as [Hn Hp]; auto.
+      - intros t1 x Hx [Ht1 Gt1]. split.
+        + assert (x < a) by (eapply (I_heap _ Hs0); eauto; unfold all_kids; apply in_flat_map; eauto).
+          apply (IH s0 t1 x Hs0 Ht1 Gt1); lia.
+        + intros t2. apply Hdup. split; auto.
+      - destruct (mapM_d (dup H ct late f) t (snd (snd k))) as [t1 l|t1|]; [| |congruence].
+        + split; [discriminate|]. intros t' [E|[y E]]; [discriminate|]. injection E as <- _. apply Hp. right; eauto.
+        + split; [discriminate|]. intros t' [E|[y E]]; [|discriminate]. injection E as <-. apply Hp. left; auto. }
+    destruct (mapM_d_no_fuel _ P (k_kids c) Hin s) as [Hn _]; [split; auto|].
+    destruct (mapM_d _ s (k_kids c)) as [s1 ks'|s1|]; [apply construct_no_fuel|discriminate|congruence].
   Qed.
 
   Theorem dup_never_out_of_fuel s a : Inv0 s -> a < length (heap s) ->
-    dup H ct (length (heap s)) s a <> None.
-  Proof.
-    intros Hs Ha. destruct (dup_total (length (heap s)) s s a Hs Hs (grow_refl s) Ha Ha) as [s' [a' ->]]. discriminate.
-  Qed.
+    dup H ct late (length (heap s)) s a <> DFuel.
+  Proof. intros Hs Ha. exact (dup_total (length (heap s)) s s a Hs Hs (grow_refl s) Ha Ha). Qed.
 End Copies.
 
 (* ================= C14: replace ================= *)
